@@ -348,13 +348,11 @@ func execOne(o hx.Op, ar *arena) string {
 	msg := ar.In("msg", o.Hex("msg"))
 	switch o.Cmd {
 	case "sum":
-		out := ar.K16("out", nil)
-		ar.tr = ar.tr[:len(ar.tr)-1] // output
+		out := ar.G16("out") // out-parameter pre-filled with non-zero garbage
 		poly1305.Sum(out, msg, key)
 		return hx.Hex(out[:]) + ar.mutated()
 	case "kat":
-		out := ar.K16("out", nil)
-		ar.tr = ar.tr[:len(ar.tr)-1]
+		out := ar.G16("out")
 		poly1305.Sum(out, msg, key)
 		if hx.Hex(out[:]) == o.Str("tag") {
 			return "kat-ok" + ar.mutated()
